@@ -38,6 +38,13 @@ type limitedResponseWriter struct {
 
 // Write implements io.Writer, tracking bytes written and enforcing the limit
 func (lrw *limitedResponseWriter) Write(b []byte) (int, error) {
+	if lrw.headRequest {
+		// The answer to a HEAD request carries no body: what the handler writes (the balancer's
+		// own error answers are written whatever the method) is discarded by net/http after it
+		// has been counted for Content-Length. Nothing travels, so nothing is limited
+		lrw.ensureHeaderWritten()
+		return lrw.ResponseWriter.Write(b)
+	}
 	if lrw.limitReached {
 		return 0, fmt.Errorf("response body exceeds limit of %d bytes", lrw.limit)
 	}
